@@ -215,6 +215,7 @@ def route_geff(tracks, wd):
         # the caller loads the track ids but asks for the lineage ids to be recomputed
         loaded = dict(loaded)
         loaded[f.lineage_key] = True
+        loaded[f.tracklet_key] = False  # ... while the track ids are to be loaded as written
         recomputed_lineage = True
     else:
         recomputed_lineage = False
